@@ -279,6 +279,16 @@ func main() {
 				rb.ServeHTTP(httptest.NewRecorder(), request("10.0.0.2"))
 			}
 		})
+		// quiescent: the rebalancer and the balancer it manages agree on the pool (a server the rebalancer cannot remove
+		// is an orphan left in the rotation by an interleaved removal and re-weighting)
+		for _, u := range rr.Servers() {
+			if err := rb.RemoveServer(u); err != nil {
+				fail("Rebalancer: %s is served by the inner balancer but unknown to the rebalancer (%v)", u, err)
+			}
+		}
+		if left := rr.Servers(); len(left) != 0 {
+			fail("Rebalancer: after removing every server through the rebalancer the inner balancer still has %v", left)
+		}
 	}
 
 	// 3b. plain round robin: the combined selections of concurrent callers are exactly proportional
@@ -430,18 +440,42 @@ func main() {
 		out := &lockedBuffer{}
 		tr, _ := trace.New(ok, out)
 		parallel(G, N, func(gi, i int) {
-			tr.ServeHTTP(httptest.NewRecorder(), request("10.0.3.1"))
+			req := httptest.NewRequest(http.MethodGet, fmt.Sprintf("http://example.com/r/%d/%d", gi, i), nil)
+			req.RemoteAddr = "10.0.3.1:1234"
+			tr.ServeHTTP(httptest.NewRecorder(), req)
 		})
 		lines := strings.Split(strings.TrimSpace(out.b.String()), "\n")
 		bad := 0
+		seen := map[string]int{}
 		for _, l := range lines {
-			var v map[string]interface{}
+			var v struct {
+				Request struct {
+					URL string `json:"url"`
+				} `json:"request"`
+			}
 			if json.Unmarshal([]byte(l), &v) != nil {
 				bad++
+				continue
 			}
+			seen[v.Request.URL]++
 		}
 		if len(lines) != G*N || bad > 0 {
 			fail("Tracer wrote %d lines (%d unparsable) for %d requests", len(lines), bad, G*N)
+		}
+		// every request is traced exactly once: no record lost, none written twice in another's place
+		missing, twice := 0, 0
+		for gi := 0; gi < G; gi++ {
+			for i := 0; i < N; i++ {
+				switch c := seen[fmt.Sprintf("http://example.com/r/%d/%d", gi, i)]; {
+				case c == 0:
+					missing++
+				case c > 1:
+					twice++
+				}
+			}
+		}
+		if missing > 0 || twice > 0 {
+			fail("Tracer: %d of %d requests have no record and %d are recorded more than once", missing, G*N, twice)
 		}
 	}
 
